@@ -520,11 +520,29 @@ fn limited(cmd: &mut std::process::Command) -> &mut std::process::Command {
     use std::os::unix::process::CommandExt;
     unsafe {
         cmd.pre_exec(|| {
-            let lim = libc::rlimit {
-                rlim_cur: CHILD_AS_LIMIT,
-                rlim_max: CHILD_AS_LIMIT,
-            };
-            libc::setrlimit(libc::RLIMIT_AS, &lim);
+            // only the soft limit: descendants that need a huge address space (sanitizers reserve
+            // terabytes of shadow memory) can raise it again, see `unlimited`
+            let mut lim = libc::rlimit { rlim_cur: 0, rlim_max: 0 };
+            if libc::getrlimit(libc::RLIMIT_AS, &mut lim) == 0 {
+                lim.rlim_cur = if lim.rlim_max == libc::RLIM_INFINITY { CHILD_AS_LIMIT } else { CHILD_AS_LIMIT.min(lim.rlim_max) };
+                libc::setrlimit(libc::RLIMIT_AS, &lim);
+            }
+            Ok(())
+        })
+    }
+}
+
+/// For commands that run sanitizer-instrumented binaries (ASan, libFuzzer): lift the soft
+/// address-space limit set by the supervisor back to the hard limit.
+pub fn unlimited(cmd: &mut std::process::Command) -> &mut std::process::Command {
+    use std::os::unix::process::CommandExt;
+    unsafe {
+        cmd.pre_exec(|| {
+            let mut lim = libc::rlimit { rlim_cur: 0, rlim_max: 0 };
+            if libc::getrlimit(libc::RLIMIT_AS, &mut lim) == 0 {
+                lim.rlim_cur = lim.rlim_max;
+                libc::setrlimit(libc::RLIMIT_AS, &lim);
+            }
             Ok(())
         })
     }
